@@ -188,7 +188,7 @@ def r2(ctx):
     for key in recomputers:
         n += 1
         recomputer(ctx, R, key)
-    ctx.floor(R, 'Board-producing functions under the cache typestate', n, 6)
+    ctx.floor(R, 'Board-producing functions under the cache typestate', n, 4)
     return recomputers
 
 
@@ -463,7 +463,7 @@ def r3(ctx, recomputers):
             ctx.violation(R, key + ':pin-branch', 'scan body does not record the single blocker as pinned exactly when popcount is 1', w)
         # direct checks
         direct(ctx, R, key, s, loop, o, A, K, Ck)
-    ctx.floor(R, 'slider-scan copies', n, 3)
+    ctx.floor(R, 'slider-scan copies', n, 2)
 
 
 def direct(ctx, R, key, s, loop, o, A, K, Ck):
@@ -528,6 +528,8 @@ def direct(ctx, R, key, s, loop, o, A, K, Ck):
         is_kn = is_pw = None
         promo = None
         promo_kn = None
+        decided = {}
+        feasible = True
         for (b, nx) in path:
             t = body.blocks[b]['term']
             if t['k'] != 'switch' or nx is None:
@@ -536,6 +538,19 @@ def direct(ctx, R, key, s, loop, o, A, K, Ck):
             vals = switch_vals(body, b, nx)
             if cond is None:
                 continue
+            # the same (pure) condition tested twice on one path must come out the same way
+            allv = [v for v, _ in t['targets']]
+            concrete = set(vals) - {'otherwise'} if 'otherwise' not in vals else None
+            prev = decided.get(cond)
+            if prev is not None:
+                pc, pall = prev
+                if pc is not None and concrete is not None and not (pc & concrete):
+                    feasible = False
+                if pc is not None and concrete is None and pc <= set(allv):
+                    feasible = False          # earlier: one of the listed values; now: none of them
+                if pc is None and concrete is not None and concrete <= set(pall):
+                    feasible = False
+            decided[cond] = (concrete, allv)
             if cond[0] == 'call' and cond[1] == '<piece::Piece as core::cmp::PartialEq>::eq' and M in cond[2]:
                 other = [x for x in cond[2] if x != M]
                 tr = vals == ['otherwise']
@@ -549,6 +564,8 @@ def direct(ctx, R, key, s, loop, o, A, K, Ck):
                     and cond[1][1][1][1] == 'chess_move::ChessMove::get_promotion':
                 kd = ctx.facts().enum_discr('piece::Piece', 'Knight')
                 promo_kn = (vals == [kd])
+        if not feasible:
+            continue
         if is_kn:
             cls = 'knight-move'
         elif is_pw:
@@ -556,6 +573,8 @@ def direct(ctx, R, key, s, loop, o, A, K, Ck):
                 cls = 'knight-promotion'
             elif promo is False or (promo is None and promo_kn is None):
                 cls = 'pawn-no-promotion'
+            elif promo_kn is None:
+                cls = 'promotion-of-unknown-kind'     # the path does not say whether the new piece is a knight
             else:
                 cls = 'other-promotion'
         elif is_kn is False and is_pw is False:
@@ -573,6 +592,8 @@ def direct(ctx, R, key, s, loop, o, A, K, Ck):
         classes[cls] += 1
         if cls == 'unclassified':
             bad.append(('unclassified', path, found))
+        elif cls == 'promotion-of-unknown-kind':
+            bad.append((cls, 'a knight term exactly when the promotion piece is a knight (the slider scan never sees a knight)', got, found))
         elif got != want:
             bad.append((cls, want, got, found))
         else:
